@@ -328,7 +328,7 @@ def fn(ck, args):
         ck.cov["impl_outcome_counts"] = dict(sorted(cnt.items()))
         for need in ("Unit:refused", "Attempt:imap:refused", "Attempt:pop3:refused", "Attempt:imap:ok",
                      "Attempt:pop3:ok", "Attempt:imap:failed", "Attempt:pop3:failed"):
-            if not cnt.get(need):
+            if not cnt.get(need) and not ck.violations:
                 raise RuntimeError(f"vacuous run: no implementation event of kind {need}")
         ck.cov["rule"] = ("cases = unit transition tests (every Link-admitted abstract pre-state of the two "
                           "tables x concrete ages per region x good/bad credentials, real check_allow/"
